@@ -205,6 +205,22 @@ def rule_js1(A: Analysis, rep):
         opens = [c for c in walk_local(sj.node) if isinstance(c, ast.Call) and norm(c.func) == "open"]
         ok = len(dumps) == 1 and norm(dumps[0].args[0]) == field and len(opens) == 1 and norm(opens[0].args[0]) == sj.params[1] and _open_mode(opens[0]) == "w"
         rep.check(ok, "JS1", "%s dumps the declared values themselves" % cls.rsplit(".", 1)[1], sj.node, "json.dump(%s, file)" % field, "serialize_json dumps `%s`" % (norm(dumps[0].args[0]) if dumps else "?"))
+        # the dump must be total and lossless for every primitive value (any str incl. lone surrogates from
+        # os.listdir/os.environ, any float): keywords that change what can be encoded are reported
+        lossy = {"ensure_ascii": "non-ASCII text is written raw: a str with a lone surrogate (undecodable file name / env value) raises UnicodeEncodeError in the UTF-8 writer",
+                 "default": "values are converted instead of being written as declared", "skipkeys": "entries can be dropped silently",
+                 "cls": "a custom encoder may change the representation", "allow_nan": "inf/nan floats would raise instead of round-tripping"}
+        for d in dumps:
+            for k in d.keywords:
+                if k.arg in lossy and not (k.arg == "ensure_ascii" and isinstance(k.value, ast.Constant) and k.value.value is True) \
+                        and not (k.arg == "allow_nan" and isinstance(k.value, ast.Constant) and k.value.value is True):
+                    rep.bad("JS1", "%s: lossless, total JSON encoding" % cls.rsplit(".", 1)[1], d, "json.dump(..., %s=%s): %s" % (k.arg, norm(k.value), lossy[k.arg]))
+            rep.check(True, "JS1", "%s: encoding keywords" % cls.rsplit(".", 1)[1], d, "keywords %s" % sorted(k.arg for k in d.keywords if k.arg), deep=False)
+        for o in opens:
+            enc = next((k.value for k in o.keywords if k.arg == "encoding"), None)
+            errs = next((k.value for k in o.keywords if k.arg == "errors"), None)
+            rep.check(enc is not None and isinstance(enc, ast.Constant) and str(enc.value).upper().replace("-", "") == "UTF8" and errs is None, "JS1", "%s: file encoding fixed to UTF-8" % cls.rsplit(".", 1)[1], o,
+                      "", "the record is opened with encoding=%s errors=%s" % (norm(enc) if enc is not None else None, norm(errs) if errs is not None else None))
         em = A.fn(cls + ".empty")
         r = [x for x in walk_local(em.node) if isinstance(x, ast.Return)]
         rep.check(len(r) == 1 and A.dnf(r[0].value, True, em) == [frozenset({("empty(%s)" % field, True)})], "JS1", "%s.empty()" % cls.rsplit(".", 1)[1], em.node, "", "empty() is `%s`" % (norm(r[0].value) if r else "?"))
